@@ -3,20 +3,11 @@
 // A panic inside gimli is caught and printed as `panic`.
 #![allow(clippy::all)]
 #![allow(unused)]
-mod util;
-mod c09;
+pub mod util;
+include!(concat!(env!("OUT_DIR"), "/dispatch.rs"));
 
 use std::io::{BufRead, Write};
 use std::panic;
-
-fn dispatch(toks: &[&str]) -> String {
-    let stream = toks[0];
-    let fam = stream.split('.').next().unwrap_or("");
-    match fam {
-        "c09" => c09::run(toks),
-        _ => format!("unknown-stream {}", stream),
-    }
-}
 
 fn main() {
     panic::set_hook(Box::new(|_| {}));
